@@ -364,7 +364,9 @@ func (clients *clientsContainer) shouldCountClient(ids []string) (y bool) {
 	defer clients.lock.Unlock()
 
 	for _, id := range ids {
-		client, ok := clients.storage.Find(id)
+		// The identifiers are ClientIDs and IP addresses, so don't let a
+		// ClientID that is spelled like a MAC address match another client.
+		client, ok := clients.storage.FindByClientIDOrIP(id)
 		if ok {
 			return !client.IgnoreStatistics
 		}
